@@ -4,6 +4,10 @@ import cpu_props
 ID = 'C06'
 LEAN_MODULES = ['Py65.Props.C06', 'Py65.Props.C06h']
 NAMESPACES = ['Py65.Props.C06', 'Py65.Props.C06h']
+# library helpers (CPython behaviour modelled in lean/Py65/Model/*Rt*.lean ...) that the generated code of these
+# modules calls, derived by scanning the Lean sources (harness/rtscan.py); validated against CPython on every run
+import rtcheck  # noqa: E402
+RT_HELPERS = rtcheck.helpers_for(LEAN_MODULES)
 EXPECTED_THEOREMS = ['Py65.Props.C06.rts_after_jsr', 'Py65.Props.C06.rti_after_interrupt', 'Py65.Props.C06.rti_after_brk',
                      'Py65.Props.C06h.balanced_restores', 'Py65.Props.C06h.frame_resumes',
                      'Py65.Props.C06h.frame_resumes_anywhere', 'Py65.Props.C06h.nest_resumes', 'Py65.Props.C06h.frame_core', 'Py65.Props.C06h.plain_step']
